@@ -56,9 +56,43 @@ def _rv_places(rv):
     return _places_in_rvalue(rv)
 
 
+def rule_placeholder(ctx, fx, config):
+    """PLACEHOLDER: an alias that points back into a recursive anchor still under construction is delivered as a null
+    scalar that *names its target*: the weak pointer is resolved through the event's anchor id.  With anchor 0 the lookup
+    falls back to the nearest enclosing recursive anchor, which is the right one only for self-loops."""
+    ni = fx.fn("live_events::LiveEvents::next_impl")
+    ctx.saw(ni)
+    edges = [(sb, tt) for sb, sym, tt, ff in bool_switches(ni) if sym[0] == "call" and sym[1] == "anchor_store::recursive_anchor_in_progress"]
+    if not ctx.check(len(edges) == 1, "PLACEHOLDER", "C14:PLACEHOLDER:branch", "the in-progress test guards the placeholder", "cannot find the recursive_anchor_in_progress branch in next_impl (%d)" % len(edges), config, ctx.where(ni)):
+        return
+    sb, tt = edges[0]
+    with ni.deep():
+        arg = render(ni.sym_operand(ni.blocks[sb]["term"]["o"]))
+    seen = []
+    # shallow view: the anchor field is the alias's own id
+    shallow_ok = False
+    for b, i, adt, var, fl, ops, s_ in aggregates(ni):
+        if adt == "de::Ev" and var == "Scalar" and ni.edge_dominates(sb, tt, b):
+            a = render(ops[fl.index("anchor")])
+            seen.append(a)
+            shallow_ok = shallow_ok or a == "anchor_id"
+    ctx.check(shallow_ok, "PLACEHOLDER", "C14:PLACEHOLDER:names-target", "the placeholder scalar carries the alias's anchor id",
+              "the placeholder for a cyclic alias does not carry the target's anchor id (anchor fields seen on that edge: %s): a back-reference that crosses another recursive node of the same type is silently rewired to that node" % sorted(set(seen)), config, ctx.where(ni, sb))
+
+
+def _walk(sym):
+    if isinstance(sym, tuple):
+        yield sym
+        for x in sym:
+            if isinstance(x, (tuple, list)):
+                for y in (x if isinstance(x, list) else [x]):
+                    yield from _walk(y)
+
+
 def run(ctx):
     for config in ctx.configs:
         fx = ctx.facts(config)
+        rule_placeholder(ctx, fx, config)
         kinds_adt = [v["name"] for v in fx.adt("anchor_store::AnchorKind")["variants"]]
         store_fields = [x["name"] for x in fx.adt("anchor_store::AnchorStore")["variants"][0]["fields"]]
         ctx.check(sorted(snake(k) for k in kinds_adt) == sorted(store_fields), "TABLE", "C14:TABLE:kinds-vs-store-fields", "one store field per AnchorKind (%s)" % store_fields,
